@@ -99,7 +99,7 @@ def gen_check(rng):
         vals = [G.rand_scalar(rng)]
     elif r < 0.4:
         vals, oneof = [G.rand_scalar(rng) for _ in range(rng.randint(1, 3))], True
-    validate = [{'op': 'pred', 'name': rng.choice(['yes', 'no', 'zero', 'truthy', 'isnum', 'boom']), 'id': 0}
+    validate = [{'op': 'pred', 'name': rng.choice(['yes', 'no', 'zero', 'truthy', 'isnum', 'boom', 'boom_attr', 'recip', 'head']), 'id': 0}
                 for _ in range(rng.randint(1, 2))] if rng.random() < 0.45 else []
     hasdef = rng.random() < 0.4
     return {'op': 'check', 'sub': gen_steps(rng) if rng.random() < 0.3 else [], 'seq': rng.choice(['list', 'tuple']),
